@@ -227,6 +227,68 @@ theorem invertPermuted_correct (n : Nat) (A : Mat) (rp cp sizes : List Nat) (X :
   have hM := invertPermuted_left n A rp cp sizes X hr hc hsz hbd h
   exact ⟨hM, mul_eq_one_comm.mp hM, Matrix.inv_eq_left_inv hM⟩
 
+/-- `invertDiagonalBlocks_correct_checked`: the same with the hypotheses as ONE decidable input
+    condition `blockHyp`, which the driver evaluates on every case (answer field `hyp_ok`). -/
+theorem invertDiagonalBlocks_correct_checked (n : Nat) (A : Mat) (sizes : List Nat)
+    (r : BlockInverse) (hyp : blockHyp n A sizes = true)
+    (h : invertDiagonalBlocks A sizes = some r) :
+    matMul n r.dense A = identity n ∧ toMatrix n A * toMatrix n r.dense = 1 ∧
+      (toMatrix n A)⁻¹ = toMatrix n r.dense := by
+  simp only [blockHyp, isBlockDiag, Bool.and_eq_true, decide_eq_true_eq] at hyp
+  exact invertDiagonalBlocks_correct n A sizes r hyp.1.1 hyp.1.2 hyp.2 h
+
+/-- `invertPermuted_correct_checked`: the hypotheses of `invertPermuted_correct` as the decidable
+    input condition `pipelineHyp` (permutations; sizes sum to `n`; the permuted matrix equals the
+    block-diagonal assembly of its diagonal blocks), evaluated by the driver on every case. -/
+theorem invertPermuted_correct_checked (n : Nat) (A : Mat) (rp cp sizes : List Nat) (X : Mat)
+    (hyp : pipelineHyp n A rp cp sizes = true) (h : invertPermuted n A rp cp sizes = some X) :
+    toMatrix n X * toMatrix n A = 1 ∧ toMatrix n A * toMatrix n X = 1 ∧
+      (toMatrix n A)⁻¹ = toMatrix n X := by
+  simp only [pipelineHyp, isBlockDiag, Bool.and_eq_true, decide_eq_true_eq] at hyp
+  exact invertPermuted_correct n A rp cp sizes X (isPermOfRange_perm n rp hyp.1.1.1)
+    (isPermOfRange_perm n cp hyp.1.1.2) hyp.1.2 hyp.2 h
+
+/-- `permSearch_invert_correct`: search followed by inversion (driver op `pinv`), the third clause
+    of the property for the executable model: if the computed permutation passes the decidable
+    check, the permuted inverter applied to it returns the inverse of `A`. -/
+theorem permSearch_invert_correct (n : Nat) (A : Mat) (r : PermResult) (X : Mat)
+    (_hs : permSearch n n A = .ok r)
+    (hyp : pipelineHyp n A r.rowPerm r.colPerm r.sizes = true)
+    (h : invertPermuted n A r.rowPerm r.colPerm r.sizes = some X) :
+    (toMatrix n A)⁻¹ = toMatrix n X :=
+  (invertPermuted_correct_checked n A _ _ _ X hyp h).2.2
+
+/-- `invertDiagonalBlocksOpt_spec`: option handling of `invert_diagonal_blocks`.  A result is
+    returned exactly for `method ∈ {None, "numba", "python"}` on csr/csc input and is then the
+    result of the common inverter (so the theorems above apply to every method); an unknown
+    method is a `ValueError` whatever the input, a wrong storage format a `TypeError`. -/
+theorem invertDiagonalBlocksOpt_spec (fmtOk : Bool) (method : Option String) (A : Mat) (s : List Nat) :
+    (∀ r, invertDiagonalBlocksOpt fmtOk method A s = .ok r ↔
+      ((method = none ∨ method = some "numba" ∨ method = some "python") ∧ fmtOk = true ∧
+        invertDiagonalBlocks A s = some r)) ∧
+    (invertDiagonalBlocksOpt fmtOk method A s = .error .unknownMethod ↔
+      ¬ (method = none ∨ method = some "numba" ∨ method = some "python")) := by
+  unfold invertDiagonalBlocksOpt
+  have hiff : ((method == none || method == some "numba" || method == some "python") = true) ↔
+      (method = none ∨ method = some "numba" ∨ method = some "python") := by
+    simp [or_assoc]
+  split
+  · rename_i hc
+    have hm := hiff.mp hc
+    cases fmtOk <;> cases hinv : invertDiagonalBlocks A s <;> simp [hm]
+  · rename_i hc
+    have hm : ¬ (method = none ∨ method = some "numba" ∨ method = some "python") :=
+      fun h => hc (hiff.mpr h)
+    simp [hm]
+
+/-- `blockDiagIndex_rect_square`: the two entry points of `block_diag_index` agree — for square
+    blocks the row indices of the two-argument branch are the column indices the one-argument
+    branch puts into the csr matrix — and the two index arrays have equal length. -/
+theorem blockDiagIndex_rect_square (o : Nat) (sz m n : List Nat) (ro co : Nat) :
+    (blockDiagIndexRect o o sz sz).1 = blockDiagIndex o sz ∧
+      (blockDiagIndexRect ro co m n).1.length = (blockDiagIndexRect ro co m n).2.length :=
+  ⟨blockDiagIndexRect_square o sz, blockDiagIndexRect_lengths ro co m n⟩
+
 /-- every block handed to `invertAll` is inverted by `inverse` (so the two theorems above apply
     block by block); the results are square and have the sizes of the blocks -/
 theorem invertAll_correct (Bs Xs : List Mat) (h : invertAll Bs = some Xs) :
@@ -382,6 +444,23 @@ example : (toMatrix 3 [[0, 0, 4], [2, 1, 0], [1, 3, 0]])⁻¹
     = toMatrix 3 [[0, 3/5, -1/5], [0, -1/5, 2/5], [1/4, 0, 0]] :=
   (invertPermuted_correct 3 [[0, 0, 4], [2, 1, 0], [1, 3, 0]] [0, 1, 2] [2, 0, 1] [1, 2] _
     (by decide) (by decide) (by decide) (by decide +kernel) (by decide +kernel)).2.2
+
+/-- non-vacuity of the `_checked` theorems: the decidable conditions hold on concrete data -/
+example : blockHyp 3 [[2, 1, 0], [1, 3, 0], [0, 0, 4]] [2, 0, 1] = true := by decide +kernel
+example : pipelineHyp 3 [[0, 0, 4], [2, 1, 0], [1, 3, 0]] [0, 1, 2] [2, 0, 1] [1, 2] = true := by
+  decide +kernel
+/-- … and fail when the sizes do not expose the blocks -/
+example : pipelineHyp 3 [[0, 0, 4], [2, 1, 0], [1, 3, 0]] [0, 1, 2] [2, 0, 1] [2, 1] = false := by
+  decide +kernel
+
+example : (match invertDiagonalBlocksOpt true (some "cython") [[2]] [1] with
+    | .error .unknownMethod => 1 | _ => 0) = 1 := by decide +kernel
+example : (match invertDiagonalBlocksOpt false none [[2]] [1] with
+    | .error .badFormat => 1 | _ => 0) = 1 := by decide +kernel
+
+/-- the docstring example of `block_diag_index`: m = [2, 3], n = [1, 2] -/
+example : blockDiagIndexRect 0 0 [2, 3] [1, 2] = ([0, 1, 2, 3, 4, 2, 3, 4], [0, 0, 1, 1, 1, 2, 2, 2]) := by
+  decide +kernel
 
 /-- non-vacuity of `gaussJordan_complete`: a unit determinant -/
 example : ∃ B, inverse [[2, 1], [1, 3]] = some B :=
